@@ -25,3 +25,23 @@ PROPS['C20'] = dict(
        'that destroy_func is called once and only there; that unref frees iff the finaliser says so; that every overwrite of an owned field releases or null-tests the old value on all paths; that ref_count is written only by init/ref/fini; '
        'that the alpha-map exchange is guarded by both chain refusals and by owner != referent and pairs ref/unref with alpha_count. Decided for every path of every function, which no finite history sample can do.',
   note='Trusted: clang-14 IR = built program. Not decided: histories as such; user misuse (unref more often than ref).')
+PROPS['C03'] = dict(
+  technique='static analysis: guard (edge-dominance) analysis of the composite-region function, linear-form comparison of clip/dispatch offsets with the Render geometry, interprocedural bound-obligation propagation for raw writers, bit-provenance of partial-byte stores',
+  text='Decides that the composite region consults the clip of each of the six image roles under that role\'s own presence only (sibling symmetry), that the destination bounds and the alpha-map rectangle enter the extents, '
+       'that clip offsets and per-box source/mask origins are the linear forms the Render geometry prescribes (x with x, y with y, right signs), that the routine is called once per rectangle of the region computed for the request, '
+       'that raw fill/row writers reachable from the API outside the composite region get coordinates bounded by bits.width/bits.height, and (bit-provenance, all values) that 1/4/8/16/24/32-bpp stores leave every bit outside the addressed pixel unchanged. '
+       'Necessary conditions; that each composite routine stays inside its box is not decided.',
+  note='Trusted: clang-14 IR = built program; geometry oracle from the Render specification (DESIGN Appendix B.5). Known finding F11 (exported pixman_rasterize_edges trusts caller rows) is listed in known_findings.json.')
+PROPS['C10'] = dict(
+  category='proof',
+  technique='static analysis: bit-provenance abstract interpretation of generated wrappers (T-BIT), table completeness/agreement (T-TAB/T-EXH), taint of pixel pointers in the accessor instantiation',
+  text='Proof-level for the narrow direct formats: for each of the 34 formats using the generic accessors and every addressed offset in a 96-bit window, the provenance of all 32 fetched bits (and of all 96 memory bits after a store) equals the map computed from the format code alone '
+       '(bit replication, absent alpha 1, absent colour 0, truncation to MSBs, neighbours unchanged) — deciding all 2^96 memory contents at once, for little- and (thorough) big-endian macros; unorm_to_unorm for all 256 width pairs. '
+       'Plus: accessor table has a complete, null-consistent row for every accepted format in both instantiations; scanline/pixel/store functions of a row are instantiated with the row key; '
+       'the accessor build never dereferences pixel memory except through read_func/write_func; constant conversion tables (float multipliers, sRGB) are end-point exact and monotone.',
+  note='Trusted base: clang -O2 folding of the wrapper, the transfer functions of pxv/bitprov.py, the format-layout oracle (pixman.h). Not decided: float widening/narrowing arithmetic, YUV matrices, palettes, 10-bit wide formats.')
+PROPS['C19'] = dict(
+  technique='static analysis: fail-before-write path query and dropped-status rule for blt/fill (T-MPT/T-ERR), bit-provenance equality of color_to_pixel with the general store codec (T-BIT), depth-set inclusion (T-EXH), bound obligations for the direct fill',
+  text='Decides that blt/fill primitives return FALSE only before writing and that no caller drops that status unless its registration guarantees the depth; that for each of the 12 formats the direct-fill shortcut accepts, its pixel equals the general store conversion of the solid colour on all defined bits for all 2^64 colours; '
+       'that every such depth is handled by the portable fill; that the shortcut\'s rectangles are bounded by the image. Head/body/tail pixel accounting of the fill loops is not decided here.',
+  note='Trusted: clang-14 IR = built program, bitprov transfer functions. F1/F7 were repaired in /repo (fix: commits).')
